@@ -1,7 +1,7 @@
 (* C01 — property theorems only.  Each is closed by [exact <lemma>] and followed by
    Print Assumptions; non-vacuity Examples at the end. *)
 From V Require Import Common.NumFacts C01.Model C01.Proofs C01.ProofsMulti C01.ProofsMix C01.ProofsOps
-  C01.ProofsTotal C01.ProofsSplit C01.ProofsCopyM C01.ProofsCopy C01.ProofsAlias.
+  C01.ProofsTotal C01.ProofsSplit C01.ProofsCopyM C01.ProofsCopy C01.ProofsAlias C01.ProofsDeep.
 
 (* ===== mixing: value =====
    Whatever the receiver (single- or multi-phase), the inlets (any phases, single/multi, the
@@ -413,3 +413,226 @@ Proof.
   split; [vm_compute; reflexivity|].
   split; intros i; unfold nthq; repeat (destruct i as [|i]; simpl; try lra).
 Qed.
+
+(* ===== deepening: repeated IDs; split / separate / copy / scale through aliased handles ===== *)
+(* C01_copy_partial without the no-repeats assumption: a repeated ID writes the same value again *)
+Theorem C01_copy_partial_any : forall st d s i remove exclude st',
+  wf_store st -> d <> s -> i <> IdAll -> step st (OCopyFlow d s i remove exclude) = Ok st' ->
+  exists ss b idx, nth_error st s = Some ss /\ select (spkg ss) i exclude = Ok (b, idx) /\
+  (forall c,
+     tot_at st' c d == (if selc (spkg ss) idx c then tot_at st c s else tot_at st c d) /\
+     tot_at st' c s == (if remove && selc (spkg ss) idx c then 0 else tot_at st c s)) /\
+  forall k, k <> d -> k <> s -> nth_error st' k = nth_error st k.
+Proof. exact copy_partial_any_thm. Qed.
+Print Assumptions C01_copy_partial_any.
+(* separate_out through handles (receiver: the owner, a flow proxy or a linked MultiStream; the other stream
+   any handle, also one on the receiver's data): the receiver's flow data ends with receiver - other as the
+   handles showed them, every other flow data is untouched *)
+Theorem C01_alias_sep_value : forall a r o a' vst h,
+  views (cells a) (hs a) = Ok vst -> wf_store vst -> nth_error (hs a) r = Some h -> r <> o ->
+  astep a (OSep r o) = Ok a' ->
+  exists x, nth_error (cells a') (hcell h) = Some x /\
+    (forall c, tot x c == tot_at vst c r - tot_at vst c o) /\
+    (forall j', j' <> hcell h -> nth_error (cells a') j' = nth_error (cells a) j') /\
+    length (hs a') = length (hs a).
+Proof. exact alias_sep_value. Qed.
+Print Assumptions C01_alias_sep_value.
+Theorem C01_alias_scale_value : forall a i k a' vst h,
+  views (cells a) (hs a) = Ok vst -> nth_error (hs a) i = Some h ->
+  astep a (OScale i k) = Ok a' ->
+  exists x, nth_error (cells a') (hcell h) = Some x /\
+    (forall c, tot x c == k * tot_at vst c i) /\
+    (forall j', j' <> hcell h -> nth_error (cells a') j' = nth_error (cells a) j') /\
+    length (hs a') = length (hs a).
+Proof. exact alias_scale_value. Qed.
+Print Assumptions C01_alias_scale_value.
+(* copy with removal (everything) through handles on different flow data: the receiver's data ends with what
+   the source handle showed, the source's data with nothing, every other flow data is untouched *)
+Theorem C01_alias_copy_remove : forall a d s a' vst hd hsrc,
+  views (cells a) (hs a) = Ok vst -> wf_store vst ->
+  nth_error (hs a) d = Some hd -> nth_error (hs a) s = Some hsrc ->
+  (match hsrc with HView _ _ _ => False | _ => True end) ->
+  d <> s -> hcell hd <> hcell hsrc ->
+  astep a (OCopyFlow d s IdAll true false) = Ok a' ->
+  exists x1 x2, nth_error (cells a') (hcell hd) = Some x1 /\ nth_error (cells a') (hcell hsrc) = Some x2 /\
+    (forall c, tot x1 c == tot_at vst c s /\ tot x2 c == 0) /\
+    (forall j', j' <> hcell hd -> j' <> hcell hsrc -> nth_error (cells a') j' = nth_error (cells a) j') /\
+    length (hs a') = length (hs a).
+Proof. exact alias_copy_remove. Qed.
+Print Assumptions C01_alias_copy_remove.
+(* split_to through handles: outlets on different flow data, written in place; the feed is any handle (a
+   sub-stream, a proxy, also one sharing an outlet's data) *)
+Theorem C01_alias_split_value : forall a f s1 s2 sp eb a' vst h1 h2 fs,
+  views (cells a) (hs a) = Ok vst -> wf_store vst ->
+  nth_error (hs a) s1 = Some h1 -> nth_error (hs a) s2 = Some h2 -> nth_error vst f = Some fs ->
+  s1 <> s2 -> hcell h1 <> hcell h2 ->
+  rebind_info vst (OSplit f s1 s2 sp eb) s1 = None -> rebind_info vst (OSplit f s1 s2 sp eb) s2 = None ->
+  length (split_vec (psize (spkg fs)) sp) = psize (spkg fs) ->
+  astep a (OSplit f s1 s2 sp eb) = Ok a' ->
+  exists x1 x2, nth_error (cells a') (hcell h1) = Some x1 /\ nth_error (cells a') (hcell h2) = Some x2 /\
+    (forall c, tot x1 c == split_part fs sp c /\ tot x2 c == tot fs c - split_part fs sp c) /\
+    (forall j', j' <> hcell h1 -> j' <> hcell h2 -> nth_error (cells a') j' = nth_error (cells a) j') /\
+    length (hs a') = length (hs a).
+Proof. exact alias_split_value. Qed.
+Print Assumptions C01_alias_split_value.
+
+Example C01_nonvacuous_copy_repeated_ids : exists st',
+  step exStore (OCopyFlow 0 1 (IdList [0; 0; 2; 0]%nat) true false) = Ok st'.
+Proof. eexists. vm_compute. reflexivity. Qed.
+Definition exA_views : store := match views (cells exA) (hs exA) with Ok v => v | Err _ => [] end.
+Lemma exA_views_ok : views (cells exA) (hs exA) = Ok exA_views.
+Proof. vm_compute. reflexivity. Qed.
+Lemma exA_views_wf : wf_store exA_views.
+Proof.
+  split.
+  - intros s [H|[H|[H|[H|[H|[H|[]]]]]]]; subst; unfold wf_stream, wf_pkg; simpl;
+      (split; [repeat constructor; simpl; intuition lia|]);
+      (split; [intros r0 R; repeat (destruct R as [R|R]; [subst; reflexivity|]); destruct R|]);
+      (split; [reflexivity | repeat split; repeat constructor; simpl; lia]).
+  - intros x y [A|[A|[A|[A|[A|[A|[]]]]]]] [B|[B|[B|[B|[B|[B|[]]]]]]]; subst; unfold coherent; simpl; intros E; reflexivity.
+Qed.
+Example C01_nonvacuous_alias_sep : wf_store exA_views /\ exists a', astep exA (OSep 0 4) = Ok a'.
+Proof. split; [exact exA_views_wf|]. eexists. vm_compute. reflexivity. Qed.
+Example C01_nonvacuous_alias_scale : exists a', astep exA (OScale 4 (1 # 2)) = Ok a'.
+Proof. eexists. vm_compute. reflexivity. Qed.
+Example C01_nonvacuous_alias_copy_remove : exists a', astep exA (OCopyFlow 1 4 IdAll true false) = Ok a'.
+Proof. eexists. vm_compute. reflexivity. Qed.
+Example C01_nonvacuous_alias_split :
+  rebind_info exA_views (OSplit 5 1 3 (SpS (1 # 2)) true) 1 = None /\
+  rebind_info exA_views (OSplit 5 1 3 (SpS (1 # 2)) true) 3 = None /\
+  exists a', astep exA (OSplit 5 1 3 (SpS (1 # 2)) true) = Ok a'.
+Proof. split; [vm_compute; reflexivity|]. split; [vm_compute; reflexivity|]. eexists. vm_compute. reflexivity. Qed.
+
+(* what each kind of stream object shows of a cell: every handle reads the cell, so a value written to a cell is
+   seen through all of them *)
+Theorem C01_alias_handles_read_cell : forall cs j x,
+  nth_error cs j = Some x ->
+  view_of cs (HCell j) = Ok x /\
+  (forall ph c, x = SS c -> view_of cs (HProxy j ph) = Ok (SS (mkc (cpkg c) ph (crow c)))) /\
+  (forall phs m, x = MS m -> view_of cs (HLink j phs) = Ok (MS (mkm (mpkg m) phs (mrows m)))) /\
+  (forall p lbl m i, x = MS m -> pindex_exact p (mphases m) = Some i ->
+     view_of cs (HView j p lbl) = Ok (SS (mkc (mpkg m) lbl (nth i (mrows m) [])))).
+Proof. exact handles_read_cell. Qed.
+Print Assumptions C01_alias_handles_read_cell.
+(* copy_flow with partial IDs / exclude (repeats allowed), with or without removal, through handles *)
+Theorem C01_alias_copy_partial : forall a d s i remove exclude a' vst hd hsrc,
+  views (cells a) (hs a) = Ok vst -> wf_store vst ->
+  nth_error (hs a) d = Some hd -> nth_error (hs a) s = Some hsrc ->
+  (match hsrc with HView _ _ _ => False | _ => True end) ->
+  d <> s -> hcell hd <> hcell hsrc -> i <> IdAll ->
+  astep a (OCopyFlow d s i remove exclude) = Ok a' ->
+  exists ss b idx x1 x2, nth_error vst s = Some ss /\ select (spkg ss) i exclude = Ok (b, idx) /\
+    nth_error (cells a') (hcell hd) = Some x1 /\ nth_error (cells a') (hcell hsrc) = Some x2 /\
+    (forall c, tot x1 c == (if selc (spkg ss) idx c then tot_at vst c s else tot_at vst c d) /\
+               tot x2 c == (if remove && selc (spkg ss) idx c then 0 else tot_at vst c s)) /\
+    (forall j', j' <> hcell hd -> j' <> hcell hsrc -> nth_error (cells a') j' = nth_error (cells a) j') /\
+    length (hs a') = length (hs a).
+Proof. exact alias_copy_partial. Qed.
+Print Assumptions C01_alias_copy_partial.
+(* a sub-stream multistream[p] as the source of a copy with removal: the receiver gets what the sub-stream showed,
+   the MultiStream loses exactly that phase row *)
+Theorem C01_alias_copy_remove_from_substream : forall a d s a' vst hd j p lbl m i,
+  views (cells a) (hs a) = Ok vst -> wf_store vst -> wf_stream (MS m) ->
+  nth_error (hs a) d = Some hd -> nth_error (hs a) s = Some (HView j p lbl) ->
+  nth_error (cells a) j = Some (MS m) -> pindex_exact p (mphases m) = Some i ->
+  d <> s -> hcell hd <> j ->
+  astep a (OCopyFlow d s IdAll true false) = Ok a' ->
+  exists x1 x2, nth_error (cells a') (hcell hd) = Some x1 /\ nth_error (cells a') j = Some x2 /\
+    (forall c, tot x1 c == tot_at vst c s /\ tot x2 c == tot (MS m) c - tot_at vst c s) /\
+    (forall j', j' <> hcell hd -> j' <> j -> nth_error (cells a') j' = nth_error (cells a) j').
+Proof. exact alias_copy_remove_from_substream. Qed.
+Print Assumptions C01_alias_copy_remove_from_substream.
+(* both outlets non-negative for the full split_to (single- and multi-phase feeds) *)
+Theorem C01_split_nonneg_full : forall f s1 s2 sp eb a b,
+  split_to f s1 s2 sp eb = Ok (a, b) ->
+  wf_stream f -> wf_stream s1 -> wf_stream s2 ->
+  coherent (spkg s1) (spkg f) -> coherent (spkg s2) (spkg f) ->
+  length (split_vec (psize (spkg f)) sp) = psize (spkg f) ->
+  (forall r, In r (srows f) -> forall i, 0 <= nthq r i) ->
+  (forall i, 0 <= nthq (split_vec (psize (spkg f)) sp) i <= 1) ->
+  forall c, 0 <= tot a c /\ 0 <= tot b c.
+Proof. exact split_to_nonneg. Qed.
+Print Assumptions C01_split_nonneg_full.
+(* well-formedness is an invariant of every operation and of every history, so each per-operation theorem
+   applies at every step of any history that starts from a well-formed store *)
+Theorem C01_step_preserves_wf : forall st o st',
+  wf_store st -> split_len_ok st o -> step st o = Ok st' -> wf_store st'.
+Proof. exact step_wf. Qed.
+Print Assumptions C01_step_preserves_wf.
+Theorem C01_history_preserves_wf : forall ops st st',
+  wf_store st -> split_lens_ok st ops -> run st ops = Ok st' -> wf_store st'.
+Proof. exact run_wf. Qed.
+Print Assumptions C01_history_preserves_wf.
+Theorem C01_history_mix_value : forall ops st st1 r ins eb hf r',
+  wf_store st -> split_lens_ok st ops -> run st ops = Ok st1 -> mix st1 r ins eb hf = Ok r' ->
+  forall c, tot r' c == qsum (map (tot_at st1 c) ins).
+Proof. exact history_mix_value. Qed.
+Print Assumptions C01_history_mix_value.
+
+Example C01_nonvacuous_alias_copy_partial : exists a',
+  astep exA (OCopyFlow 1 4 (IdList [0; 0; 2]%nat) true false) = Ok a'.
+Proof. eexists. vm_compute. reflexivity. Qed.
+Example C01_nonvacuous_alias_copy_from_substream :
+  pindex_exact Pl [Pg; Pl] = Some 1%nat /\ exists a', astep exA (OCopyFlow 1 5 IdAll true false) = Ok a'.
+Proof. split; [reflexivity|]. eexists. vm_compute. reflexivity. Qed.
+Example C01_nonvacuous_history :
+  split_lens_ok exStore [OMix 0 [1; 2]%nat true 2; OSep 0 1; OCopyFlow 1 0 (IdList [0; 0]%nat) true false;
+                         OSplit 2 0 1 (SpV [1 # 2; 1 # 4; 1]) true; OScale 2 (1 # 2); OMul 2 2] /\
+  exists st', run exStore [OMix 0 [1; 2]%nat true 2; OSep 0 1; OCopyFlow 1 0 (IdList [0; 0]%nat) true false;
+                           OSplit 2 0 1 (SpV [1 # 2; 1 # 4; 1]) true; OScale 2 (1 # 2); OMul 2 2] = Ok st'.
+Proof.
+  split; [|eexists; vm_compute; reflexivity].
+  cbn [split_lens_ok split_len_ok].
+  split; [exact I|]. intros st1 E1. vm_compute in E1. inversion E1; subst st1; clear E1.
+  split; [exact I|]. intros st2 E2. vm_compute in E2. inversion E2; subst st2; clear E2.
+  split; [exact I|]. intros st3 E3. vm_compute in E3. inversion E3; subst st3; clear E3.
+  split; [intros fs NF; vm_compute in NF; inversion NF; subst fs; reflexivity|].
+  intros st4 E4. vm_compute in E4. inversion E4; subst st4; clear E4.
+  split; [exact I|]. intros st5 E5. vm_compute in E5. inversion E5; subst st5; clear E5.
+  split; [exact I|]. intros st6 E6. exact I.
+Qed.
+
+(* split_to through handles in general - also when split_to replaces an outlet's indexer (s.phases = feed phases)
+   while other stream objects share its data: what each OUTLET HANDLE shows afterwards is split*feed and the rest *)
+Theorem C01_alias_split_views : forall a f s1 s2 sp eb a' vst h1 h2 fs,
+  views (cells a) (hs a) = Ok vst -> wf_store vst ->
+  nth_error (hs a) s1 = Some h1 -> nth_error (hs a) s2 = Some h2 -> nth_error vst f = Some fs ->
+  s1 <> s2 -> hcell h1 <> hcell h2 ->
+  length (split_vec (psize (spkg fs)) sp) = psize (spkg fs) ->
+  astep a (OSplit f s1 s2 sp eb) = Ok a' ->
+  exists h1' h2' y1 y2,
+    nth_error (hs a') s1 = Some h1' /\ view_of (cells a') h1' = Ok y1 /\
+    nth_error (hs a') s2 = Some h2' /\ view_of (cells a') h2' = Ok y2 /\
+    forall c, tot y1 c == split_part fs sp c /\ tot y2 c == tot fs c - split_part fs sp c.
+Proof. exact alias_split_views. Qed.
+Print Assumptions C01_alias_split_views.
+(* a multi-phase feed split with energy balance into a stream that has a flow proxy: the outlet's indexer is replaced *)
+Example C01_nonvacuous_alias_split_rebind :
+  rebind_info exA_views (OSplit 2 0 1 (SpS (1 # 2)) true) 0 <> None /\
+  exists a', astep exA (OSplit 2 0 1 (SpS (1 # 2)) true) = Ok a'.
+Proof. split; [vm_compute; discriminate|]. eexists. vm_compute. reflexivity. Qed.
+
+(* mixing through handles, uniformly: whether or not the mix replaces the receiver's indexer, what the RECEIVER HANDLE
+   shows afterwards is the sum of what the inlet handles showed *)
+Theorem C01_alias_mix_views : forall a r ins eb hf a' vst h,
+  views (cells a) (hs a) = Ok vst -> wf_store vst -> nth_error (hs a) r = Some h ->
+  astep a (OMix r ins eb hf) = Ok a' ->
+  exists h' y, nth_error (hs a') r = Some h' /\ view_of (cells a') h' = Ok y /\
+    forall c, tot y c == qsum (map (tot_at vst c) ins).
+Proof. exact alias_mix_views. Qed.
+Print Assumptions C01_alias_mix_views.
+(* MultiStream.copy_flow with removal through handles (single-phase source, no exclude, any selector and IDs) *)
+Theorem C01_alias_multi_copy_remove_single : forall a d s ps i a' vst hd hsrc o,
+  views (cells a) (hs a) = Ok vst -> wf_store vst ->
+  nth_error (hs a) d = Some hd -> nth_error (hs a) s = Some hsrc -> nth_error vst s = Some (SS o) ->
+  nonview hsrc -> d <> s -> hcell hd <> hcell hsrc ->
+  astep a (OCopyFlowM d s ps i true false) = Ok a' ->
+  exists x1 x2, nth_error (cells a') (hcell hd) = Some x1 /\ nth_error (cells a') (hcell hsrc) = Some x2 /\
+    (forall c, tot x1 c + tot x2 c == tot_at vst c s) /\
+    (forall j', j' <> hcell hd -> j' <> hcell hsrc -> nth_error (cells a') j' = nth_error (cells a) j').
+Proof. exact alias_multi_copy_remove_single. Qed.
+Print Assumptions C01_alias_multi_copy_remove_single.
+Example C01_nonvacuous_alias_mix_views_and_multi_copy :
+  (exists a', astep exA (OMix 0 [2; 3]%nat true 2) = Ok a') /\
+  (exists a', astep exA (OCopyFlowM 2 4 (PhOne Pg) (IdList [0; 2]%nat) true false) = Ok a').
+Proof. split; eexists; vm_compute; reflexivity. Qed.
